@@ -1,0 +1,15 @@
+//go:build verif
+
+package schema
+
+// Read-only accessors for verification tooling (build tag "verif"). Add-only: nothing in
+// this file is referenced by the SDK itself.
+
+// VerifBoolStringValues returns a copy of the table of accepted boolean words.
+func VerifBoolStringValues() map[string]bool {
+	result := make(map[string]bool, len(boolStringValues))
+	for k, v := range boolStringValues {
+		result[k] = v
+	}
+	return result
+}
